@@ -1,5 +1,5 @@
-CONSTANTS N = 3  Shapes = {"empty", "nonl", "multi", "mlike"}  Statuses = {0, 3}
+CONSTANTS N = 3  Shapes = {"empty", "nonl", "multi", "mlike"}  Statuses = {0, 3}  Pres = {"none"}
 CONSTANTS AllowTimeout = TRUE  AllowKill = TRUE
-CONSTANTS FallbackShell = FALSE  CloseOnFailure = FALSE  FallbackOnTimeout = TRUE
+CONSTANTS FallbackShell = FALSE  CloseOnFailure = FALSE  FallbackOnTimeout = TRUE  PreambleInShell = FALSE
 INIT MCInit
 NEXT GenNext
